@@ -61,3 +61,47 @@ def direct(ex, prop, name, vars_, stmt, hyps=()):
     side = list(ex.spec.side)
     ex.spec.side = []
     return [Obl(prop, 'lemma.' + name, 'direct', '-', hs + side, goal, 'lemma')]
+
+
+def induction_on_str_right(ex, prop, name, vars_, stmt, on, hyps=(), hints=()):
+    """forall vars. hyps ==> stmt, by induction on the byte string `on` from the right
+    (base: on == b'';  step: on != b'' and (hyps ==> stmt)[on := on[:-1]] ==> stmt)."""
+    obls = []
+    st = State()
+    env = _env(ex, st, vars_)
+    d = env[on]
+    senv = SpecEnv(st, dict(env))
+    hs = [ex.spec.bool(h, senv) for h in hyps]
+    goal = ex.spec.bool(stmt, senv)
+    side = list(ex.spec.side)
+    ex.spec.side = []
+    obls.append(Obl(prop, 'lemma.' + name, 'base', '-', [z3.Length(d.t) == 0] + hs + side, goal, 'lemma'))
+    env_h = dict(env)
+    env_h[on] = VStr(z3.SubString(d.t, 0, z3.Length(d.t) - 1), d.kind)
+    senv_h = SpecEnv(st, env_h)
+    hs_h = [ex.spec.bool(h, senv_h) for h in hyps]
+    ih = z3.Implies(z3.And(hs_h) if hs_h else z3.BoolVal(True), ex.spec.bool(stmt, senv_h))
+    side_h = list(ex.spec.side)
+    ex.spec.side = []
+    assum = [z3.Length(d.t) > 0] + hs + [ih] + side_h
+    for i, h in enumerate(hints):
+        enum = None
+        if isinstance(h, tuple):        # ('enum', text, python check over the finite domain, domain note)
+            _, h, enum, note = h
+        hg = ex.spec.bool(h, senv)
+        hside = list(ex.spec.side)
+        ex.spec.side = []
+        ob = Obl(prop, 'lemma.' + name, 'hint%d' % i, '-', list(assum) + hside, hg, 'lemma')
+        if enum is not None:
+            # finite-domain fact decided by exhaustive enumeration in CPython (complete, not sampled)
+            ok = bool(enum())
+            ob.kind = 'enumerated'
+            ob.verdict = 'unsat' if ok else 'sat'
+            ob.backend = 'exhaustive enumeration: ' + note
+        obls.append(ob)
+        assum.append(hg)
+    goal = ex.spec.bool(stmt, senv)
+    side = list(ex.spec.side)
+    ex.spec.side = []
+    obls.append(Obl(prop, 'lemma.' + name, 'step', '-', assum + side, goal, 'lemma'))
+    return obls
